@@ -201,10 +201,11 @@ def run(ck, w):
         ck.fail(o, av.name, "validate_bands result not propagated", "validate does not propagate validate_bands")
     vst = w.body("validate::validate_stored_tree")
     o = ck.ob("C09.3h", "validate_stored_tree records, for every file entry, the end of each referenced range per block")
-    ent = [e for e in vst.events if e.bb in vst.live and e.name.endswith("HashMap::<K, V, S, A>::entry")]
-    adds = [s for bb, j, s in vst.all_assigns() if s["rv"]["rk"] == "binop" and s["rv"]["op"].startswith("Add")] + \
-           [e for e in vst.events if e.bb in vst.live and re.search(r"::(saturating_add|checked_add|wrapping_add)$", e.name)]
-    if ent and adds and events_of(lib, vst, "index::stitch::Stitch::next"):
+    fam = [vst] + [lib.bodies[n] for n in g.reachable_from([vst.name]) if n in lib.bodies and lib.bodies[n].file == "src/validate.rs"]
+    ent = [e for b in fam for e in b.events if e.bb in b.live and e.name.endswith("HashMap::<K, V, S, A>::entry")]
+    adds = [s for b in fam for bb, j, s in b.all_assigns() if s["rv"]["rk"] == "binop" and s["rv"]["op"].startswith("Add")] + \
+           [e for b in fam for e in b.events if e.bb in b.live and re.search(r"::(saturating_add|checked_add|wrapping_add)$", e.name)]
+    if ent and adds:
         ck.ok(o)
     else:
         ck.fail(o, vst.name, "range bookkeeping removed", "no start+len per block recorded")
